@@ -6,6 +6,7 @@ use serde_json::json;
 
 pub const ALGOS: [&str; 5] = ["shiftand", "bndm", "bom", "horspool", "kmp"];
 
+#[derive(Clone)]
 enum M<'a> {
     SA(ShiftAnd),
     BN(BNDM),
@@ -29,11 +30,47 @@ fn run_one(log: &mut Log, tag: &str, algo: &str, p: &[u8], texts: &[Vec<u8>]) {
         });
         json!({})
     });
-    let m = match m {
+    let mut m = match m {
         Some(m) => m,
         None => return,
     };
     for (ti, t) in texts.iter().enumerate() {
+        if ti == 2 {
+            // go on with a copy of the matcher object
+            let c = m.clone();
+            m = c;
+        }
+        if ti % 3 == 2 {
+            // a match iterator forked in the middle of a search: first item, then a CLONE of the
+            // iterator continues (the original's continuation must agree with it)
+            macro_rules! fork {
+                ($it:expr) => {{
+                    let mut it = $it;
+                    let mut v: Vec<usize> = vec![];
+                    if let Some(p) = it.next() {
+                        v.push(p);
+                    }
+                    let c = it.clone();
+                    let rest_orig: Vec<usize> = it.collect();
+                    let rest: Vec<usize> = c.collect();
+                    if rest != rest_orig {
+                        v.push(usize::MAX >> 40); // not a position of any text used here
+                    }
+                    v.extend(rest);
+                    v
+                }};
+            }
+            log.call("find_all", json!({"t": bytes(t), "fork": 1}), || {
+                let v: Vec<usize> = match &m {
+                    M::SA(x) => fork!(x.find_all(t.iter())),
+                    M::BN(x) => fork!(x.find_all(t)),
+                    M::BO(x) => fork!(x.find_all(t)),
+                    M::HO(x) => fork!(x.find_all(t)),
+                    M::KM(x) => fork!(x.find_all(t.iter())),
+                };
+                json!({"v": usizes(&v)})
+            });
+        }
         // every 4th text is also handed over as a lazy iterator without a size hint (find_all takes
         // any IntoIterator for ShiftAnd and KMP)
         if ti % 4 == 1 {
